@@ -19,7 +19,7 @@ PY = "/venv/bin/python"
 DES = ["--deselect", "unit_tests/test_panoptic_aggregator.py::Test_Example_Scripts", "--deselect", "unit_tests/test_panoptic_evaluator.py::Test_Example_Scripts"]
 d = tempfile.mkdtemp(prefix="ingest_", dir="/tmp")
 repo = d + "/repo"
-subprocess.check_call(["git", "-C", "/repo", "worktree", "add", "-q", "--detach", repo, "HEAD"], stdout=subprocess.DEVNULL, stderr=subprocess.DEVNULL)
+subprocess.check_call(["git", "-C", "/repo", "worktree", "add", "-q", "--detach", repo, os.environ.get("BASE_COMMIT", "HEAD")], stdout=subprocess.DEVNULL, stderr=subprocess.DEVNULL)
 ran = []
 try:
     env = dict(os.environ, PYTHONPATH=repo, PANOPTICA_CITATION_REMINDER="false")
